@@ -89,6 +89,7 @@ W_rbr == <<"]">>
 W_EXIT == <<"E", "X", "I", "T">>
 W_ERR == <<"E", "R", "R">>
 W_pipefail == <<"p", "i", "p", "e", "f", "a", "i", "l">>
+W_wait == <<"w", "a", "i", "t">>
 
 ------------------------------------------------------------------------
 (* Part 2: the evaluator *)
@@ -105,14 +106,14 @@ AllDevs == {"Dev_LastPipeInParent", "Dev_ErrCheckEveryStmt", "Dev_ErrexitNegated
             "Dev_ErrexitCmdSubst", "Dev_ExitInTrapIgnored", "Dev_ExitTrapSubshell", "Dev_ErrTrapInherited",
             "Dev_ReturnTopLevel", "Dev_ReturnSubshell", "Dev_LocalSubshell", "Dev_BreakDeferred",
             "Dev_BreakZero", "Dev_WhileStatus", "Dev_ShiftRange", "Dev_ReturnNoArg", "Dev_NounsetArith",
-            "Dev_NounsetElem", "Dev_NegatedExit"}
+            "Dev_NounsetElem", "Dev_NegatedExit", "Dev_ArithErrorFatal", "Dev_TestBangPrecedence"}
 
 S0(dev) == [vars |-> [n \in VarNames |-> Unset], loc |-> <<>>, pos |-> <<>>,
             fn |-> [n \in FnNames |-> NoFn],
             e |-> FALSE, pf |-> FALSE, u |-> FALSE,
             tx |-> NoTrap, te |-> NoTrap, efun |-> FALSE, esub |-> FALSE, intrap |-> FALSE,
-            out |-> <<>>, inp |-> <<>>, eof |-> FALSE,
-            st |-> 0, cs |-> 0 - 1, ctl |-> "n", n |-> 0,
+            out |-> <<>>, inp |-> <<>>, eof |-> FALSE, bg |-> FALSE,
+            st |-> 0, cs |-> 0 - 1, ctl |-> "n", n |-> 0, aerr |-> FALSE,
             fuel |-> Fuel, bad |-> "", ign |-> FALSE, ld |-> 0, ldi |-> 0, pb |-> 0, pc |-> 0, fd |-> 0, sub |-> 0, fsub |-> 0,
             dev |-> dev, trig |-> {}]
 
@@ -122,7 +123,8 @@ D(s, name) == name \in s.dev
 Trig(s, name) == [s EXCEPT !.trig = @ \cup {name}]
 Has(r, f) == f \in DOMAIN r
 St(s, n) == [s EXCEPT !.st = n]
-Out(s, t) == [s EXCEPT !.out = @ \o t]
+\* While a background job may still be running, anything written to stdout races with it
+Out(s, t) == IF s.bg THEN Bad(s, "output while a background job may be running") ELSE [s EXCEPT !.out = @ \o t]
 
 \* ---- pieces of an expanded word
 PL(v) == [k |-> "l", v |-> v]   \* unquoted literal text (pattern characters active, never split)
@@ -171,6 +173,18 @@ PMatch(pat, i, t, j) ==
        THEN PMatch(pat, i + 1, t, j) \/ (j <= Len(t) /\ PMatch(pat, i, t, j + 1))
        ELSE j <= Len(t) /\ (pat[i].w \/ pat[i].c = t[j]) /\ PMatch(pat, i + 1, t, j + 1)
 Matches(ps, t) == PMatch(PatOf(ps), 1, t, 1)
+\* =~ with the regular expressions the generators use: an unquoted . matches any character, everything else
+\* (and everything quoted) itself; the match may start anywhere
+RECURSIVE ReOf(_)
+ReOf(ps) ==
+  IF ps = <<>> THEN <<>>
+  ELSE LET p == Head(ps)
+           v == IF p.k = "a" THEN JoinSp(p.l) ELSE p.v IN
+       [i \in 1..Len(v) |-> [c |-> v[i], w |-> p.k \in {"l", "x"} /\ v[i] = "."]] \o ReOf(Tail(ps))
+ReAt(re, t, j) == j + Len(re) - 1 <= Len(t) /\ \A i \in 1..Len(re) : re[i].w \/ re[i].c = t[j + i - 1]
+ReMatches(ps, t) == LET re == ReOf(ps) IN \E j \in 1..(Len(t) + 1) : ReAt(re, t, j)
+ReOK(ps) == \A i \in 1..Len(ps) : ps[i].k = "q" \/
+              (\A j \in 1..Len(IF ps[i].k = "a" THEN <<>> ELSE ps[i].v) : ps[i].v[j] \notin {"*", "+", "?", "[", "]", "(", ")", "|", "^", "$", "\\", "{", "}"})
 
 \* ---- $'...' escapes (only those the generators use)
 RECURSIVE Ansi(_)
@@ -182,6 +196,14 @@ Ansi(v) ==
                [] v[2] = "a" -> <<"BEL">> [] v[2] = "b" -> <<"BS">>
                [] OTHER -> <<"\\", v[2]>>) \o Ansi(SubSeq(v, 3, Len(v)))
        ELSE <<Head(v)>> \o Ansi(Tail(v))
+
+\* ---- inside double quotes a backslash quotes only $ ` " \ (and newline); otherwise it stays
+RECURSIVE DqUnescape(_)
+DqUnescape(v) ==
+  IF v = <<>> THEN <<>>
+  ELSE IF Head(v) = "\\" /\ Len(v) >= 2 /\ v[2] \in {"$", "`", "\"", "\\"} THEN <<v[2]>> \o DqUnescape(SubSeq(v, 3, Len(v)))
+  ELSE IF Head(v) = "\\" /\ Len(v) >= 2 THEN <<"\\", v[2]>> \o DqUnescape(SubSeq(v, 3, Len(v)))
+  ELSE <<Head(v)>> \o DqUnescape(Tail(v))
 
 \* ---- variables
 ArrVals(m) == LET ks == SortNat(DOMAIN m) IN [i \in 1..Len(ks) |-> m[ks[i]]]
@@ -218,8 +240,9 @@ AVarVal(s, nm) ==
 IsNameWord(w) == w.k = "Word" /\ Len(w.Parts) = 1 /\ w.Parts[1].k = "Lit" /\ Len(w.Parts[1].Value) = 1
                  /\ w.Parts[1].Value[1] \in VarNames
 ASet(s, nm, n) == SetVar(s, nm, Str(Dec(n)))
+AErr(s) == [s EXCEPT !.aerr = TRUE]      \* the expression is in error (e.g. assignment to a non-variable)
 XArith(e, s) ==
-  IF ~Live(s) THEN [v |-> 0, s |-> s]
+  IF ~Live(s) \/ s.aerr THEN [v |-> 0, s |-> s]
   ELSE CASE e.k = "Word" ->
          IF IsNameWord(e) THEN AVarVal(s, e.Parts[1].Value[1])
          ELSE LET r == XParts(e.Parts, 1, s, FALSE)
@@ -231,7 +254,10 @@ XArith(e, s) ==
     [] e.k = "ParenArithm" -> XArith(e.X, s)
     [] e.k = "UnaryArithm" ->
          IF e.Op \in {"++", "--"} THEN
-           IF ~IsNameWord(e.X) THEN [v |-> 0, s |-> Bad(s, "++ on a non-name")]
+           IF ~IsNameWord(e.X) THEN
+                \* `++5` is two unary pluses; `5++` and `++$x` with a post operator are errors
+                IF ~Has(e, "Post") THEN LET a == XArith(e.X, s) IN [v |-> a.v, s |-> a.s]
+                ELSE LET a == XArith(e.X, s) IN [v |-> 0, s |-> AErr(a.s)]
            ELSE LET nm == e.X.Parts[1].Value[1]
                     a == AVarVal(s, nm)
                     nv == IF e.Op = "++" THEN a.v + 1 ELSE a.v - 1 IN
@@ -241,7 +267,7 @@ XArith(e, s) ==
               [v |-> CASE e.Op = "-" -> 0 - a.v [] e.Op = "+" -> a.v [] e.Op = "!" -> IF a.v = 0 THEN 1 ELSE 0, s |-> a.s]
     [] e.k = "BinaryArithm" ->
          IF e.Op \in {"=", "+=", "-=", "*="} THEN
-           IF ~IsNameWord(e.X) THEN [v |-> 0, s |-> Bad(s, "assignment to a non-name")]
+           IF ~IsNameWord(e.X) THEN LET a == XArith(e.X, s) IN [v |-> 0, s |-> AErr(a.s)]     \* "attempted assignment to non-variable"
            ELSE LET nm == e.X.Parts[1].Value[1]
                     b == XArith(e.Y, s)
                     old == IF e.Op = "=" THEN [v |-> 0, s |-> b.s] ELSE AVarVal(b.s, nm)
@@ -296,10 +322,15 @@ XSubst(stmts, s) ==
 
 XPart(part, s, q) ==
   LET mk(v) == <<IF q THEN PQ(v) ELSE PX(v)>> IN
-  CASE part.k = "Lit" -> [p |-> <<IF q THEN PQ(part.Value) ELSE PL(part.Value)>>, s |-> s]
+  CASE part.k = "Lit" ->
+         IF ~q /\ \E i \in 1..Len(part.Value) : part.Value[i] = "\\" THEN [p |-> <<>>, s |-> Bad(s, "backslash in an unquoted literal")]
+         ELSE [p |-> <<IF q THEN PQ(DqUnescape(part.Value)) ELSE PL(part.Value)>>, s |-> s]
     [] part.k = "SglQuoted" ->
          LET v == IF Has(part, "Value") THEN part.Value ELSE <<>> IN
-         [p |-> <<PQ(IF Has(part, "Dollar") THEN Ansi(v) ELSE v)>>, s |-> s]
+         \* inside double quotes (a word nested in "${x:-...}") bash takes ' as an ordinary character and goes on
+         \* expanding between them: such trees only arise from rewrites and are outside the model
+         IF q THEN [p |-> <<>>, s |-> Bad(s, "single quotes inside a double-quoted expansion")]
+         ELSE [p |-> <<PQ(IF Has(part, "Dollar") THEN Ansi(v) ELSE v)>>, s |-> s]
     [] part.k = "DblQuoted" ->
          IF ~Has(part, "Parts") THEN [p |-> <<PQ(<<>>)>>, s |-> s]
          ELSE IF Len(part.Parts) = 1 /\ IsAtParam(part.Parts[1]) THEN XParts(part.Parts, 1, s, TRUE)
@@ -308,7 +339,10 @@ XPart(part, s, q) ==
     [] part.k = "CmdSubst" ->
          LET r == XSubst(IF Has(part, "Stmts") THEN part.Stmts ELSE <<>>, s) IN [p |-> mk(r.v), s |-> r.s]
     [] part.k = "ArithmExp" ->
-         LET r == XArith(part.X, s) IN [p |-> mk(Dec(r.v)), s |-> r.s]
+         LET r == XArith(part.X, s) IN
+         \* bash abandons the rest of the current LINE after an expansion error: layout-dependent
+         IF r.s.aerr THEN [p |-> <<>>, s |-> Bad(r.s, "arithmetic error inside an expansion")]
+         ELSE [p |-> mk(Dec(r.v)), s |-> r.s]
 
 XParam(pe, s, q) ==
   LET nm == pe.Param.Value
@@ -327,11 +361,22 @@ XParam(pe, s, q) ==
                 set == IF isArr THEN ix.v \in DOMAIN ix.s.vars[nm].m ELSE ix.v = 0 /\ Look(ix.s, nm).set
                 v == IF ~set THEN <<>> ELSE IF isArr THEN ix.s.vars[nm].m[ix.v] ELSE Look(ix.s, nm).v IN
             IF ~Live(ix.s) THEN [p |-> <<>>, s |-> ix.s]
+            ELSE IF ix.s.aerr THEN [p |-> <<>>, s |-> Bad(ix.s, "arithmetic error inside an expansion")]
             ELSE IF ix.v < 0 THEN [p |-> <<>>, s |-> Bad(ix.s, "negative index")]
             ELSE IF Has(pe, "Exp") THEN [p |-> <<>>, s |-> Bad(ix.s, "operator on an element")]
             ELSE IF ~set /\ ix.s.u /\ ~D(s, "Dev_NounsetElem") THEN [p |-> <<>>, s |-> Unbound(ix.s)]
             ELSE [p |-> mk(v), s |-> IF ~set /\ ix.s.u THEN Trig(ix.s, "Dev_NounsetElem") ELSE ix.s]
   ELSE IF nm \in {"@", "*"} THEN [p |-> <<>>, s |-> Bad(s, "$* or $@ with an operator")]
+  ELSE IF Has(pe, "Slice") THEN       \* ${x:off:len} with non-negative bounds
+       LET x == Look(s, nm)
+           o == XArith(pe.Slice.Offset, s)
+           n == IF Has(pe.Slice, "Length") THEN XArith(pe.Slice.Length, o.s) ELSE [v |-> Len(x.v), s |-> o.s]
+           hi == IF o.v + n.v > Len(x.v) THEN Len(x.v) ELSE o.v + n.v IN
+       IF ~Live(n.s) THEN [p |-> <<>>, s |-> n.s]
+       ELSE IF n.s.aerr THEN [p |-> <<>>, s |-> Bad(n.s, "arithmetic error inside an expansion")]
+       ELSE IF o.v < 0 \/ n.v < 0 \/ Has(pe, "Exp") \/ Has(pe, "Length") THEN [p |-> <<>>, s |-> Bad(n.s, "slice outside the model")]
+       ELSE IF ~x.set /\ s.u THEN [p |-> <<>>, s |-> Unbound(n.s)]
+       ELSE [p |-> mk(SubSeq(x.v, o.v + 1, hi)), s |-> n.s]
   ELSE LET x == Look(s, nm) IN
        IF Has(pe, "Length") THEN
             IF ~x.set /\ s.u THEN [p |-> <<>>, s |-> Unbound(s)] ELSE [p |-> mk(Dec(Len(x.v))), s |-> s]
@@ -372,13 +417,19 @@ XTest(x, s) ==
               ELSE IF x.Op = "-z" THEN [v |-> r.v = <<>>, s |-> r.s]
               ELSE [v |-> FALSE, s |-> Bad(r.s, "unary test outside the model")]
     [] x.k = "BinaryTest" ->
-         IF x.Op = "&&" THEN LET a == XTest(x.X, s) IN IF ~a.v \/ ~Live(a.s) THEN a ELSE XTest(x.Y, a.s)
+         IF x.Op \in {"&&", "||"} /\ x.X.k = "UnaryTest" /\ x.X.Op = "!" /\ D(s, "Dev_TestBangPrecedence") THEN
+              \* the code's parser reads `! a && b` as `! (a && b)`
+              LET r == XTest([x EXCEPT !.X = x.X.X], Trig(s, "Dev_TestBangPrecedence")) IN [v |-> ~r.v, s |-> r.s]
+         ELSE IF x.Op = "&&" THEN LET a == XTest(x.X, s) IN IF ~a.v \/ ~Live(a.s) THEN a ELSE XTest(x.Y, a.s)
          ELSE IF x.Op = "||" THEN LET a == XTest(x.X, s) IN IF a.v \/ ~Live(a.s) THEN a ELSE XTest(x.Y, a.s)
          ELSE LET a == XJoin(x.X, s)
                   b == XJoin(x.Y, a.s) IN
               IF ~Live(b.s) THEN [v |-> FALSE, s |-> b.s]
               ELSE IF x.Op \in {"==", "="} THEN [v |-> Matches(b.p, a.v), s |-> b.s]
               ELSE IF x.Op = "!=" THEN [v |-> ~Matches(b.p, a.v), s |-> b.s]
+              ELSE IF x.Op = "=~" THEN
+                   IF ~ReOK(b.p) THEN [v |-> FALSE, s |-> Bad(b.s, "regular expression outside the model")]
+                   ELSE [v |-> ReMatches(b.p, a.v), s |-> b.s]
               ELSE IF x.Op \in {"-eq", "-ne", "-lt", "-le", "-gt", "-ge"} THEN
                    IF ~IsNum(a.v) \/ ~IsNum(b.v) THEN [v |-> FALSE, s |-> Bad(b.s, "numeric test on non-integer text")]
                    ELSE LET m == NumVal(a.v) n == NumVal(b.v) IN
@@ -474,7 +525,9 @@ RunSub(stmts, s) ==
                       !.trig = IF lost THEN @ \cup {"Dev_ErrexitSubshellCtx"} ELSE @]
       r == XStmts(stmts, 1, s1)
       \* return/break/continue do not leave a subshell: they end it with the current status
-      r1 == IF r.bad = "" THEN [r EXCEPT !.ctl = "n"] ELSE r
+      r1 == IF r.bad # "" THEN r
+            ELSE IF r.bg THEN Bad(r, "shell ends while a background job may be running")
+            ELSE [r EXCEPT !.ctl = "n"]
       skip == D(s, "Dev_ExitTrapSubshell") /\ s.sub >= 1
       runx == r1.tx.set /\ r1.bad = "" /\ ~skip
       r1t == IF r1.tx.set /\ r1.bad = "" /\ skip THEN Trig(r1, "Dev_ExitTrapSubshell") ELSE r1
@@ -666,6 +719,7 @@ XBuiltin(nm, a, s) ==
               ELSE St(SetVar(s, v, Unset), 0)
     [] nm = W_read -> XRead(a, s)
     [] nm = W_trap -> XTrap(a, s)
+    [] nm = W_wait -> IF a = <<>> THEN St([s EXCEPT !.bg = FALSE], 0) ELSE Bad(s, "wait with arguments")
     [] nm = W_test -> St(s, TestArgs(a))
     [] nm = W_lbr ->
          IF a = <<>> \/ a[Len(a)] # W_rbr THEN St(s, 2) ELSE St(s, TestArgs(SubSeq(a, 1, Len(a) - 1)))
@@ -771,7 +825,13 @@ XCmd(c, s) ==
          ELSE Bad(s, "function name outside the model")
     [] c.k = "BinaryCmd" -> XPipe(c, s)          \* only | reaches here (&& and || are handled in XStmt)
     [] c.k = "TestClause" -> LET r == XTest(c.X, s) IN IF Live(r.s) THEN St(r.s, IF r.v THEN 0 ELSE 1) ELSE r.s
-    [] c.k = "ArithmCmd" -> LET r == XArith(c.X, s) IN IF Live(r.s) THEN St(r.s, IF r.v # 0 THEN 0 ELSE 1) ELSE r.s
+    [] c.k = "ArithmCmd" ->
+         LET r == XArith(c.X, s) IN
+         IF r.s.aerr /\ r.s.bad = "" THEN
+              \* (( )) with an expression in error: status 1 and the shell goes on (the code: the shell exits)
+              IF D(s, "Dev_ArithErrorFatal") THEN [Trig(r.s, "Dev_ArithErrorFatal") EXCEPT !.aerr = FALSE, !.ctl = "x", !.st = 1]
+              ELSE St([r.s EXCEPT !.aerr = FALSE], 1)
+         ELSE IF Live(r.s) THEN St(r.s, IF r.v # 0 THEN 0 ELSE 1) ELSE r.s
     [] c.k = "DeclClause" ->
          IF c.Variant.Value # "local" THEN Bad(s, "declaration outside the model")
          ELSE IF s.fd = 0 THEN St(s, 1)                 \* "can only be used in a function"
@@ -800,7 +860,14 @@ XStmt(st, s) ==
   ELSE LET s0 == [s EXCEPT !.fuel = @ - 1, !.trig = IF s.pb > 0 \/ s.pc > 0 THEN @ \cup {"Dev_BreakDeferred"} ELSE @]
            c == st.Cmd
            neg == Has(st, "Negated") IN
-       IF Has(st, "Background") THEN Bad(s, "background job")
+       IF Has(st, "Background") THEN
+            \* the job is a subshell environment of its own; the model lets it run to its end at once and
+            \* only accepts programs that write nothing until they have waited for it
+            IF Has(st, "Negated") \/ Has(st, "Redirs") THEN Bad(s, "background job with ! or redirections")
+            ELSE LET fg == [x \in (DOMAIN st) \ {"Background"} |-> st[x]]
+                     r == RunSub(<<fg>>, [s0 EXCEPT !.out = <<>>]) IN
+                 IF s0.bg THEN Bad(s0, "two background jobs")
+                 ELSE [Back(s0, r) EXCEPT !.out = s0.out \o r.out, !.st = 0, !.bg = TRUE]
        ELSE IF c.k = "BinaryCmd" /\ c.Op \in {"&&", "||"} THEN
             LET a0 == XStmt(c.X, [s0 EXCEPT !.ign = TRUE])
                 a == IF a0.bad = "" THEN [a0 EXCEPT !.ign = s0.ign] ELSE a0 IN
@@ -816,11 +883,11 @@ XStmt(st, s) ==
                       ELSE [r0 EXCEPT !.ign = s0.ign,
                                       !.inp = IF Has(st, "Redirs") THEN s0.inp ELSE @,
                                       !.eof = IF Has(st, "Redirs") THEN s0.eof ELSE @,
-                                      \* the code negates the status of an exit or return passing through as well
-                                      !.st = IF neg /\ (r0.ctl = "n" \/ (r0.ctl \in {"x", "r"} /\ D(s, "Dev_NegatedExit")))
-                                             THEN (IF @ = 0 THEN 1 ELSE 0) ELSE @,
+                                      \* the code turns the status 0 of an exit or return passing through into 1
+                                      !.st = IF neg /\ r0.ctl = "n" THEN (IF @ = 0 THEN 1 ELSE 0)
+                                             ELSE IF neg /\ r0.ctl \in {"x", "r"} /\ D(s, "Dev_NegatedExit") /\ @ = 0 THEN 1 ELSE @,
                                       !.trig = (IF lostNeg THEN @ \cup {"Dev_ErrexitNegated"} ELSE @) \cup
-                                               (IF neg /\ r0.ctl \in {"x", "r"} /\ D(s, "Dev_NegatedExit") THEN {"Dev_NegatedExit"} ELSE {})]
+                                               (IF neg /\ r0.ctl \in {"x", "r"} /\ r0.st = 0 /\ D(s, "Dev_NegatedExit") THEN {"Dev_NegatedExit"} ELSE {})]
                 \* the code checks after EVERY statement, also while an exit or return is unwinding
                 every == D(s, "Dev_ErrCheckEveryStmt")
                 extra == every /\ (~Checked(c) \/ r1.ctl # "n") IN
@@ -852,6 +919,7 @@ PE(n)    == [k |-> "ParamExp", Param |-> Nm(n)]
 PES(n)   == PE(n) @@ ("Short" :> TRUE)
 DQ(ps)   == [k |-> "DblQuoted", Parts |-> ps]
 SQ(v)    == [k |-> "SglQuoted", Value |-> v]
+DQ2      == [k |-> "DblQuoted"]                    \* ""
 CS(ss)   == [k |-> "CmdSubst", Stmts |-> ss]
 Call(as) == [k |-> "CallExpr", Args |-> as]
 Stm(c)   == [k |-> "Stmt", Cmd |-> c]
@@ -910,7 +978,7 @@ DWord(p, d, inF) ==
 
 \* ---- commands (each menu entry is a statement)
 NLeaf == 36
-NCmd  == 54
+NCmd  == 56
 EchoQ(pre, nm) == SCall(<<LW(W_echo), Wd(<<DQ(<<Lit(pre), PES(nm)>>)>>)>>)     \* echo "pre$nm"
 TrapT == <<"e", "c", "h", "o", " ", "T", "$", "?">>
 TrapE == <<"e", "c", "h", "o", " ", "E", "$", "?">>
@@ -1066,6 +1134,22 @@ DCmdK(c, p, d, inF) ==
                      <<"while", SP, "read", SP, "l", SEP, "do", SP, "echo", SP, "\"r$l\"", SEP>> \o s.r \o
                      <<"done", SP, "<<", "EOF", "<HDOC>", "p $x\nq", "EOF">>)
 
+    [] c = 54 -> LET a0 == DCmd(p, d - 1, inF)         \* { if true; then S & fi; wait; echo "w$?"; }
+                     a == IF a0.t.Cmd.k = "FuncDecl" \/ Has(a0.t, "Negated") \/ Has(a0.t, "Redirs") THEN [t |-> Stm(Blk(<<a0.t>>)), r |-> <<"{", SP>> \o a0.r \o <<SEP, "}">>]
+                          ELSE [t |-> a0.t, r |-> a0.r] IN
+                 Res(a0.pos, a0.need,
+                     Stm(Blk(<<Stm([k |-> "IfClause", Cond |-> <<SCall(<<LW(W_true)>>)>>, Then |-> <<a.t @@ ("Background" :> TRUE)>>]),
+                              SCall(<<LW(W_wait)>>), EchoQ(<<"w">>, "?")>>)),
+                     <<"{", SP, "if", SP, "true", SEP, "then", SP>> \o a.r \o <<SP, "&", "<BGSEP>", "fi", SEP, "wait", SEP,
+                       "echo", SP, "\"w$?\"", SEP, "}">>)
+
+    [] c = 55 -> LET w == DWord(p, d - 1, inF) IN      \* [[ ! -n W && -n "" ]] : ! binds tighter than && and ||
+                 Res(w.pos, w.need,
+                     Stm([k |-> "TestClause", X |-> [k |-> "BinaryTest", Op |-> "&&",
+                            X |-> [k |-> "UnaryTest", Op |-> "!", X |-> [k |-> "UnaryTest", Op |-> "-n", X |-> w.t]],
+                            Y |-> [k |-> "UnaryTest", Op |-> "-n", X |-> Wd(<<DQ2>>)]]]),
+                     <<"[[", SP, "!", SP, "-n", SP>> \o w.r \o <<SP, "&&", SP, "-n", SP, "\"\"", SP, "]]">>)
+
 \* statement lists: one statement, optionally followed by a second (simple) one
 DStmts(p, d, inF) ==
   LET a == DCmd(p, d, inF)
@@ -1131,29 +1215,34 @@ Balance(r, i, open, close) ==
   IF i > Len(r) THEN 0
   ELSE (IF r[i] \in open THEN 1 ELSE IF r[i] \in close THEN 0 - 1 ELSE 0) + Balance(r, i + 1, open, close)
 
-\* Laws of the contract, checked on every generated program
-Laws ==
-  LET dd == Decode
-      m == Meaning(dd.t, {})
-      md == Meaning(dd.t, Devs) IN
+\* Laws of the contract, checked on every generated program; every canonical state is emitted as one
+\* vector.  (One invariant, so that TLC evaluates each program once.)
+Laws(dd, m, md) ==
   /\ Devs \subseteq AllDevs
   /\ Balance(dd.r, 1, {"if"}, {"fi"}) = 0
   /\ Balance(dd.r, 1, {"do"}, {"done"}) = 0
   /\ Balance(dd.r, 1, {"case"}, {"esac"}) = 0
   /\ m.st \in 0..255
-  /\ m.trig = {}                                            \* no deviation without its switch
-  /\ (md.trig = {} /\ md.bad = "" /\ m.bad = "") => (md.out = m.out /\ md.st = m.st)   \* a deviation that did not trigger changes nothing
   /\ m.fuel <= Fuel
+  /\ m.trig = {}                                            \* no deviation without its switch
+  \* a deviation that did not trigger changes nothing
+  /\ (md.trig = {} /\ md.bad = "" /\ m.bad = "") => (md.out = m.out /\ md.st = m.st)
+  \* whatever happens before the shell ends, an EXIT trap set at the top runs exactly once, last
+  /\ (m.bad = "" /\ Len(dd.t.Stmts) > 0 /\ dd.t.Stmts[1].Cmd.k = "CallExpr" /\ Has(dd.t.Stmts[1].Cmd, "Args")
+      /\ Len(dd.t.Stmts[1].Cmd.Args) = 3 /\ dd.t.Stmts[1].Cmd.Args[3] = LW(W_EXIT) /\ dd.t.Stmts[1].Cmd.Args[2] = Wd(<<SQ(TrapT)>>))
+     => (Len(m.out) >= 3 /\ m.out[Len(m.out)] = NL /\ m.out[Len(m.out) - 1] \in DigitSet)
 
-Emit ==
+Check ==
   LET dd == Decode IN
-  IF Canonical /\ (Len(ch) >= EmitAt \/ dd.need = 0)
-  THEN LET m == Meaning(dd.t, {})
-           md == Meaning(dd.t, Devs) IN
-       PrintT(<<"VEC", ToJson([ch |-> ch, r |-> dd.r, out |-> m.out, st |-> m.st, bad |-> m.bad,
-                                dout |-> md.out, dst |-> md.st, dbad |-> md.bad, trig |-> md.trig]
-                               @@ (IF EmitTree THEN "t" :> dd.t ELSE <<>>))>>)
-  ELSE TRUE
+  IF ~Canonical THEN TRUE       \* the same program as the state without the trailing default choice
+  ELSE LET m == Meaning(dd.t, {})
+           md == IF Devs = {} THEN m ELSE Meaning(dd.t, Devs) IN
+       /\ Laws(dd, m, md)
+       /\ IF Len(ch) >= EmitAt \/ dd.need = 0
+          THEN PrintT(<<"VEC", ToJson([ch |-> ch, r |-> dd.r, out |-> m.out, st |-> m.st, bad |-> m.bad,
+                                       dout |-> md.out, dst |-> md.st, dbad |-> md.bad, trig |-> md.trig]
+                                      @@ (IF EmitTree THEN "t" :> dd.t ELSE <<>>))>>)
+          ELSE TRUE
 
 \* Layouts: how the layout tokens are instantiated (C03 runs every program under each of them)
 Layouts == <<
